@@ -73,7 +73,7 @@ def _create_merge_candidates(merge_expr: exp.Merge) -> exp.Expression:
 
             if isinstance(then, exp.Update):
                 case_when_clauses.append(f"WHEN {predicate} THEN {w_idx}")
-                values.update([str(c.expression) for c in then.expressions if isinstance(c.expression, exp.Column)])
+                values.update(_source_columns([c.expression for c in then.expressions], source_id))
             elif isinstance(then, exp.Var) and then.name.upper() == "DELETE":
                 case_when_clauses.append(f"WHEN {predicate} THEN {w_idx}")
             else:
@@ -82,7 +82,7 @@ def _create_merge_candidates(merge_expr: exp.Merge) -> exp.Expression:
             # notMatchedClause see https://docs.snowflake.com/en/sql-reference/sql/merge#notmatchedclause-for-inserts
             assert isinstance(then, exp.Insert), f"Expected 'Insert', got {then}"
             insert_values = then.expression.expressions
-            values.update([str(c) for c in insert_values if isinstance(c, exp.Column)])
+            values.update(_source_columns(insert_values, source_id))
             predicate = f"AND {_paren(condition)}" if condition else ""
             case_when_clauses.append(f"WHEN {_alias_or_name(target_tbl)}.rowid is NULL {predicate} THEN {w_idx}")
 
@@ -100,6 +100,16 @@ def _create_merge_candidates(merge_expr: exp.Merge) -> exp.Expression:
     """
 
     return sqlglot.parse_one(sql)
+
+
+def _source_columns(expressions: list[exp.Expression], source_id: exp.Identifier) -> set[str]:
+    # the columns of the source that the expressions use, bare (SET v = s.v) or inside a larger expression (s.v * 2)
+    return {
+        str(c)
+        for e in expressions
+        for c in e.find_all(exp.Column)
+        if not c.args.get("table") or (isinstance(c.args["table"], exp.Identifier) and checks.equal(c.args["table"], source_id))
+    }
 
 
 def _paren(e: exp.Expression) -> exp.Expression:
